@@ -8,8 +8,9 @@
 (*                                                                          *)
 (* Events:                                                                  *)
 (*  {"op":"new","fs":Hz,"fr":K,"den":d,"cap":N,"thr":code,"bq":Q24,"ecq":Q24} *)
-(*      (fr: the controller is told fs + fr Hz, 0 <= fr < 1, which the       *)
-(*      documented truncation to whole Hz makes equivalent to fs)            *)
+(*      (the buffer has N = sample_rate_to_capacity(cfs) cells; the          *)
+(*      controller is told cfs + fr Hz, which it truncates to fs whole Hz:   *)
+(*      settling and lift allowance follow fs, the capture length follows N) *)
 (*      RibbonController::<N>::new(fs, softpot, dropper, pullup) with       *)
 (*      N = sample_rate_to_capacity(fs); thr = smallest code that is NOT    *)
 (*      below the press boundary; bq = boundary, ecq = (softpot+dropper)/   *)
@@ -61,11 +62,12 @@ TMeta == e.op = "meta" /\ UNCHANGED <<rVars, dead, lastK, bq, ecq, den, snap>> /
 
 TNew ==
   /\ e.op = "new"
-  /\ LET c == [ig |-> e.fs \div 1000, dc |-> e.fs \div 500,
-               cap |-> (e.fs * 15) \div 1000 + e.fs \div 500 + 1, thr |-> e.thr]
+  /\ LET cfs == IF Has(e, "cfs") THEN e.cfs ELSE e.fs     \* the rate the buffer was sized for
+         want == (cfs * 15) \div 1000 + cfs \div 500 + 1     \* sample_rate_to_capacity(cfs)
+         c == [ig |-> e.fs \div 1000, dc |-> e.fs \div 500, cap |-> e.cap, thr |-> e.thr]
      IN /\ cfg' = c /\ run' = 0 /\ win' = <<>> /\ sum' = 0
         /\ pressing' = FALSE /\ jp' = FALSE /\ jr' = FALSE /\ val' = <<0, 1>>
-        /\ Flag(l, IF e.cap # c.cap THEN {<<"C15", "capacity">>} ELSE {})
+        /\ Flag(l, IF e.cap # want THEN {<<"C15", "capacity">>} ELSE {})
   /\ lastK' = 0 /\ bq' = e.bq /\ ecq' = e.ecq /\ snap' = <<>>
   /\ den' = IF Has(e, "den") THEN e.den ELSE 4096
   /\ l' = l + 1 /\ dead' = {}
